@@ -34,3 +34,28 @@ def trait_impls(run, F, tag):
             run.ob(False, "manual-impl|%s|%s" % (tr.split("::")[-1], i["self_ty"]), "%s premise: no trait impl outside the known set (From for Number/ParseError, Display for ParseError, Iterator for Tokenizer) — an operator/Deref/Index impl on a crate type would change what the extracted terms mean" % tag,
                    "%s:%s" % (i["file"], i["span"][0]), "hand-written `impl %s for %s` (UNRECOGNISED)" % (tr, i["self_ty"]))
     run.ob(True, "trait-impl-census", "%s premise" % tag, "crate impls", sample={"trait_impls_inspected": n, "manual_outside_known_set": 0})
+
+
+
+def dep_features(run, tag):
+    """The dependency feature set is part of the trusted base of every rule that relies on the behaviour of
+    rust_decimal / num_complex (e.g. `maths-nopanic` makes ln(0) return 0, `legacy-ops` swaps the arithmetic back end)."""
+    import os, tomllib
+    from . import extract
+    try:
+        ct = tomllib.load(open(os.path.join(extract.repo_dir(), "Cargo.toml"), "rb"))
+    except Exception as e:
+        run.fail_closed("cannot read Cargo.toml", repr(e))
+        return
+    deps = ct.get("dependencies", {})
+    rd, nc = deps.get("rust_decimal", {}), deps.get("num-complex", {})
+    ok = isinstance(rd, dict) and sorted(rd.get("features", [])) == ["maths"] and rd.get("default-features") is False and isinstance(nc, dict) and not nc.get("features") and nc.get("default-features", True) is True
+    ok = ok and set(deps) == {"rust_decimal", "num-complex"} and not ct.get("patch") and not ct.get("replace")
+    run.ob(ok, "dependency-features", "%s premise: the dependencies are built with exactly the documented features (rust_decimal: maths, no defaults; num-complex: defaults) and are not patched" % tag, "Cargo.toml [dependencies]", str(deps)[:300],
+           sample={"rust_decimal": rd if isinstance(rd, dict) else str(rd), "num-complex": nc if isinstance(nc, dict) else str(nc)})
+
+
+def entry_chains(run, models, tag):
+    for ev, m in models.items():
+        ok, why = m.entry_chain()
+        run.ob(ok, "entry-chain|%s" % ev, "%s premise: the public function is strip whitespace -> Parser::new? -> parse()? -> eval(ast)? -> Ok(value), the value returned unchanged (no fast path, no cache, no post-processing)" % tag, "%s::%s" % (ev, ev), why)
